@@ -1,5 +1,5 @@
 ---------------------------- MODULE Renamer ----------------------------
-EXTENDS Naturals, Sequences, FiniteSets, TLC
+EXTENDS Naturals, Sequences, FiniteSets, TLC, Json
 CONSTANTS Names, Preserved, Keep, KeepAll, MaxCalls, FixKeep
 Letters == <<"a","b","c","d","e","f","g","h","i","j","k","l","m","n","o","p","q","r","s","t","u","v","w","x","y","z">>
 RECURSIVE NameForId(_)
@@ -26,4 +26,6 @@ Consistent  == \A i, j \in 1..Len(hist) : hist[i][1] = hist[j][1] => hist[i][2] 
 Injective   == \A i, j \in 1..Len(hist) : hist[i][2] = hist[j][2] => hist[i][1] = hist[j][1]
 KeptAsIs    == \A i \in 1..Len(hist) : (KeepAll \/ hist[i][1] \in Preserved \cup Keep) => hist[i][2] = hist[i][1]
 GeneratedOK == \A i \in 1..Len(hist) : hist[i][2] # hist[i][1] => hist[i][2] \notin Preserved \cup Keep
+\* pipeline A: complete call histories for replay into the real name factory
+Emit == Len(hist) = MaxCalls => PrintT(ToJson(hist))
 =============================================================================
